@@ -35,8 +35,38 @@ MIN_DECIDING = {"quick": 15, "thorough": 150}
 NCASES = {"quick": 48, "thorough": 900}
 
 
+SPECTRA = [
+    # (name, simultaneous update over x, y, z[, w])  - characteristic polynomials with roots that are radicals / CRootOf / complex
+    ("3real-below-rational-1", "x, y, z = y/2, x/2 + z/4, y/4 + z/4 + 1"),     # (t-1)(16t^3-4t^2-5t+1): three real CRootOf, then 1
+    ("3real-then-2", "x, y, z, w = y, z, 3*y - x, 2*w + x"),                   # t^3-3t+1 and the rational root 2 sorted last
+    ("plastic", "x, y, z = y, z, x + y"),                                       # t^3-t-1: one real CRootOf + complex pair
+    ("fib-plus-1", "x, y, z = y, x + y, z + x"),                                # radicals and 1
+    ("rotation", "x, y, z = x - y, x + y, z + 1"),                              # complex pair
+    ("3real-half", "x, y, z = y/2, z/2, 3/2*y - x/2 + 1"),                      # scaled casus irreducibilis + inhomogeneous part
+]
+
+
+def designed_cases(seed, tier):
+    """linear loops whose recurrence matrix has irrational / CRootOf / complex eigenvalues, all numeric-root settings on:
+    a numeric option may change a result only within the precision and must then flag it as rounded"""
+    from ..lang.parser import parse_program
+    out = []
+    reps = 1 if tier == "quick" else 6
+    for j, (name, upd) in enumerate(SPECTRA * reps):
+        cs = K.harness_seed(seed, ID + "-spectra", j)
+        r = random.Random(cs)
+        noise = r.choice(["", "", "    x = x + Bernoulli(1/2)\n", "    z = z {1/2} z + 1\n"]) if j >= len(SPECTRA) else ""
+        init = "\n".join(f"{v} = {r.randint(0, 4)}" for v in ("x", "y", "z", "w"))
+        text = f"{init}\nwhile true:\n    {upd}\n{noise}end\n"
+        prog = parse_program(text)
+        goals = [{"x": 1}, {"z": 1}] if r.random() < 0.5 else [{"y": 1}, {"x": 1}]
+        out.append({"id": f"spectra-{name}-{cs}", "text": text, "ast": prog.to_json(), "params": K.frac_enc({}), "inits": K.frac_enc({}),
+                    "goals": goals, "N": 6, "fin": [], "numeric": True, "features": ["designed:irrational-spectrum", "spectrum:" + name]})
+    return out
+
+
 def generate(seed, tier):
-    cases = []
+    cases = designed_cases(seed, tier)
     for i in range(NCASES[tier]):
         cs = K.harness_seed(seed, ID, i)
         rng = random.Random(cs)
